@@ -315,7 +315,7 @@ PowVerdict(e) ==
   IN IF ld.t = "val" /\ ld.v.k = "nan" THEN B2S(NanResultOK(ld.v, e))
      ELSE IF ld.t \in {"val", "rnd"} THEN Agrees(ld, r, m)
      ELSE IF r.k = "nan" THEN "reject:nan-from-finite"
-     ELSE IF r.k = "fin" /\ ~IsZero(r) /\ r.neg # ld.neg THEN "reject:sign"
+     ELSE IF r.neg # ld.neg THEN "reject:sign"                       \* (-1)^y for negative bases, also on Inf and zero
      ELSE IF ~Has(e, "w") THEN "undecided:no-witness"
      ELSE EnclPowVerdictW(x, y, r, m, [neg |-> e.w.neg, l |-> e.w.l, e |-> e.w.e], ld.neg)
 
